@@ -176,7 +176,7 @@ PROPS['C06']['units'] = [cli.AllPelsN, cli.ListN, cli.CountN] + PROPS['C06']['un
 _meta.apply(PROPS)
 
 # C09: the diagnostics of the header / section decoders themselves go to stderr only (real bodies, not contracts)
-PROPS['C09']['units'] = PROPS['C09']['units'] + [pelcore.GeneratePH, pelcore.ParsePELAny, _s.PCE]
+PROPS['C09']['units'] = PROPS['C09']['units'] + [pelcore.GeneratePH, pelcore.ParsePELAny, _s.PCE, _s.PCEMalformed]
 
 PROPS['C05']['units'] = PROPS['C05']['units'] + list(_h.C05_SECTION_UNITS)
 PROPS['C07']['units'] = PROPS['C07']['units'] + [cli.Main, _ch.H07]
@@ -185,3 +185,6 @@ PROPS['C12']['units'] = [cli.WriteOutput, cli.PrintFileFaults, cli.Main, cli.Pri
 # C13: the --hex display goes through these modes: each hands printPELInHexFormat exactly the file's bytes
 PROPS['C13']['units'] = PROPS['C13']['units'] + [cli.AllPelsN, cli.ListN, cli.PlidN, cli.SrcN, cli.BmcN, cli.PrintFile]
 PROPS['C13']['units'] = PROPS['C13']['units'] + [_ch.H13]
+PROPS['C05']['units'] = PROPS['C05']['units'] + list(_s.C05_UNITS)
+# C05: "the command line reports it on stderr, no traceback" for the directory modes too: the per-file barrier of every mode
+PROPS['C05']['units'] = PROPS['C05']['units'] + [cli.CountN, cli.AllPelsN, cli.ListN, cli.PlidN, cli.SrcN, cli.IdN, cli.BmcN]
